@@ -274,7 +274,10 @@ def main(modname, argv):
     scratch = os.path.realpath(os.environ.get('YAQL_VERIF_REPO', '/repo')) != '/repo'
     outroot = os.path.join(VERIF, '.scratch') if scratch else VERIF
     rdir = os.path.join(outroot, 'replays', pid)
-    for key in sorted(total.failures, key=lambda k: (total.failures[k].size, k)):
+    def _order(k):
+        size = total.failures[k].size
+        return (0, (size,), k) if not isinstance(size, tuple) else (1, size, k)
+    for key in sorted(total.failures, key=_order):
         f = total.failures[key]
         if key in open_keys:
             matched_open.add(key)
